@@ -18,7 +18,7 @@ import (
 )
 
 func init() {
-	props["C19"] = &propRunner{gen: genC19, rule: "balancer histories of 10-40 operations (AddTarget / RemoveTarget / proxied request) over real upstream servers, some of them dead (closed listeners), with RetryCount 0-3; requests vary method, encoded path, query, body, headers; the sequence of targets Next returned per request is recorded through a wrapping balancer; non-trivial = history in which some request needed a retry and a target was removed or added between requests; distinct by (retry count, operations)"}
+	props["C19"] = &propRunner{gen: genC19, rule: "balancer histories of 10-40 operations (AddTarget / RemoveTarget / proxied request) over real upstream servers, some of them dead (reserved ports that refuse connections), with RetryCount 0-3; requests vary method, encoded path, query, body, headers; the sequence of targets Next returned per request is recorded through a wrapping balancer; non-trivial = history in which some request needed a retry and a target was removed or added between requests; distinct by (retry count, operations)"}
 }
 
 type c19Hit struct {
@@ -99,14 +99,15 @@ func genC19(rng *rand.Rand, n int, emit func(Case), dist map[string]int) {
 	isDown := func(nm string) bool { return nm[0] == 'd' || nm[0] == 'h' }
 	names := []string{"a0", "a1", "a2", "a3", "d0", "d1", "d2"}
 	for _, nm := range names {
+		if nm[0] == 'd' {
+			u, _ := url.Parse("http://" + reservedDeadAddr()) // dead: connection refused, and nobody else can take the port
+			urls[nm] = u
+			continue
+		}
 		s := mkAlive(nm)
 		u, _ := url.Parse(s.URL)
 		urls[nm] = u
-		if nm[0] == 'd' {
-			s.Close() // dead: connection refused
-		} else {
-			servers[nm] = s
-		}
+		servers[nm] = s
 	}
 	defer func() {
 		for _, s := range servers {
